@@ -329,6 +329,9 @@ const RaceBuild = raceEnabled
 
 // CompileOK reports whether the engine accepts the text (used by generators).
 func CompileOK(text string) bool {
+	old := useNS
+	useNS = false
 	ex, _ := compile(text)
+	useNS = old
 	return ex != nil
 }
